@@ -1548,6 +1548,22 @@ unsigned MEDDLY::forest::countRegisteredEdges() const
     return count;
 }
 
+#ifdef MEDDLY_VERIF
+unsigned MEDDLY::forest::verif_countRoots(std::vector <unsigned long> &counts)
+    const
+{
+    unsigned n = 0;
+    for (const dd_edge* r = roots; r; r=r->next) {
+        ++n;
+        const node_handle p = r->getNode();
+        if (p <= 0) continue;
+        if (size_t(p) >= counts.size()) counts.resize(size_t(p)+1, 0);
+        counts[size_t(p)]++;
+    }
+    return n;
+}
+#endif
+
 void MEDDLY::forest::markAllRoots()
 {
     if (!reachable) return;
